@@ -67,3 +67,39 @@ Proof.
     intros a b. unfold map_of. destruct (map_of_graph s p [] (NoDup_nil _) (fun a b (I : In (a, b) []) => match I with end)) as [_ H].
     rewrite H. simpl. rewrite <- Ip. intuition.
 Qed.
+
+(** has_nontrivial_automorphism() = len(perms) > 1 *)
+Theorem has_nontrivial_spec g lab p : wf g -> kinds_ok g -> arcs_ok g -> fst (canon_search g) = Some (lab, p) ->
+  (1 < length (min_leaves g) <-> exists s v, is_aut g s /\ In v (node_ids g) /\ s v <> v).
+Proof.
+  intros Hw Hk Ha Hb. destruct (aut_count g lab p Hw Hk Ha Hb) as (Mnd & Miff & _).
+  destruct (best_is_leaf g lab p Hb) as [_ Hleaf].
+  destruct (leaves_of_keys g p Hw Hleaf) as (pre & r & Ep & Hr & _ & Ipre).
+  assert (Ip : forall v, In v p <-> In v (node_ids g)).
+  { intros v. rewrite Ep. split.
+    - intros Hv. apply in_app_or in Hv. destruct Hv; [apply Ipre; auto|apply (Permutation_in _ Hr); auto].
+    - intros Hv. apply in_or_app. right. apply (Permutation_in _ (Permutation_sym Hr)); auto. }
+  assert (Hp : In p (min_leaves g)).
+  { apply Miff. exists (fun v => v). split; [|symmetry; apply map_id].
+    split; [intros x y _ _ E; exact E|]. split; [auto|]. split; auto. }
+  assert (Diff : forall s, map s p <> p -> exists v, In v p /\ s v <> v).
+  { intros s. clear. induction p as [|x l IH]; simpl; intros H; [congruence|].
+    destruct (N.eq_dec (s x) x) as [E|E]; [|exists x; auto].
+    assert (Hl : map s l <> l) by (intro E'; apply H; congruence).
+    destruct (IH Hl) as (v & Hv & Hn). exists v. auto. }
+  split.
+  - intros Hlen.
+    assert (Hq : exists q, In q (min_leaves g) /\ q <> p).
+    { destruct (min_leaves g) as [|a [|b l]]; simpl in Hlen; try lia.
+      destruct (list_eq_dec N.eq_dec a p) as [->|Hne]; [|exists a; simpl; auto].
+      exists b. split; [simpl; auto|]. intros ->. inversion Mnd as [|? ? Hni _]. apply Hni. left. auto. }
+    destruct Hq as (q & Hq & Hne). apply Miff in Hq. destruct Hq as (s & Hs & ->).
+    destruct (Diff s Hne) as (v & Hv & Hn). exists s, v. split; auto. split; auto. apply Ip. auto.
+  - intros (s & v & Hs & Hv & Hn).
+    assert (Hq : In (map s p) (min_leaves g)) by (apply Miff; eauto).
+    assert (Hne : map s p <> p).
+    { intros E. apply Hn. apply Ip in Hv. clear - E Hv. induction p as [|x l IH]; simpl in *; [contradiction|].
+      inversion E. destruct Hv as [<-|Hv]; auto. }
+    destruct (min_leaves g) as [|a [|b l]]; simpl in *; try lia; try contradiction.
+    destruct Hp as [<-|[]], Hq as [E|[]]. congruence.
+Qed.
